@@ -142,7 +142,7 @@ function layoutProgram (rng) {
 module.exports = {
   id: 'C09',
   level: 'exploration',
-  rule: 'for every modified output the embedded map is decoded by an independent VLQ decoder; monitors: v3 envelope; sources == [basename(file)]; every mapping inside the input text; every copied variable reference/binding of the output (acorn AST, injected names excluded) has a mapping starting exactly at it that lands exactly on the same identifier text in the input; every mapped token of the output lies, after statement-level alignment of output and input, within the line span of the original statement it belongs to (injected let: enclosing block; prologue: must not be mapped). Workload: corpus, catalogue, random programs, layout programs (multi-line statements, CRLF, BOM, tabs, non-ASCII before identifiers), hostile file names. distinct_nontrivial = distinct (input, config, file) outputs whose map was fully checked. Workload additions: corpus files with enabled operations spliced onto randomly chosen expression nodes (25 wrappers x every expression slot; only texts V8 still compiles), the syntax zoo with LF/CRLF/CR line endings, a CRLF slice of the corpus.',
+  rule: 'for every modified output the embedded map is decoded by an independent VLQ decoder; monitors: v3 envelope; sources == [basename(file)]; every mapping inside the input text; every copied variable reference/binding of the output (acorn AST, injected names excluded) has a mapping starting exactly at it that lands exactly on the same identifier text in the input; every mapped token of the output lies, after statement-level alignment of output and input, within the line span of the original statement it belongs to (injected let: enclosing block; prologue: must not be mapped). Workload: corpus, catalogue, random programs, layout programs (multi-line statements, CRLF, BOM, tabs, non-ASCII before identifiers), hostile file names. distinct_nontrivial = distinct (input, config, file) outputs whose map was fully checked. Workload additions: corpus files with enabled operations spliced onto randomly chosen expression nodes (25 wrappers x every expression slot; only texts V8 still compiles), the syntax zoo with LF/CRLF/CR line endings, a CRLF slice of the corpus. Call-history variant: a quarter of the layout programs run with chaining on (no map comment of their own, so the plain map is due) right after a transpiled predecessor whose inline map names a foreign source, on the same rewriter in the same process - the successor\'s map must not show anything of it.',
   assumptions: ['columns are UTF-16 code units on both sides (what V8 reports)', 'inputs with HTML-like comments (<!-- / -->) are skipped: swc positions the following token inside the comment', 'lines end at LF, CRLF or a lone CR (swc, V8 and acorn agree); inputs with raw U+2028 / U+2029 are skipped and counted: swc does not count them as line breaks while V8 and acorn do, so which line is the right one is not defined by the statement', 'files whose statements cannot be aligned (count mismatch) only get the envelope/range/identifier checks and are counted'],
   plan (ctx) {
     const shards = [{ kind: 'layout', count: ctx.tier === 'thorough' ? 6000 : 800 }]
@@ -156,12 +156,26 @@ module.exports = {
     if (spec.kind === 'layout') {
       js = []
       for (let i = 0; i < spec.count; i++) { const code = layoutProgram(rng.fork(i)); js.push({ code, file: rng.bool(0.5) ? rng.pick(G.FILE_NAMES.filter(f => basename(f))) : '/srv/app/layout.js', meta: { kind: 'layout', module: /export default/.test(code) }, config: require('../lib/cfgset').SETS[rng.pick(['FULL', 'COMMENTS', 'RENAMED'])], cfgKey: 'L' + (i % 3), cfgName: 'layout' }) }
-      js.forEach((j, i) => { j.cfgKey = JSON.stringify(j.config).length + ':' + (j.config.comments ? 'c' : 'n') + (j.config.csiMethods[0].dst || '') })
+      // chaining switched on for files that declare no map of their own (the plain map is due), each preceded - in the same
+      // process, on the same rewriter - by a transpiled file whose inline map names another source: nothing of the
+      // predecessor may show in the successor's map
+      const foreign = Buffer.from(JSON.stringify({ version: 3, file: 'pre.js', sources: ['FOREIGN-PREDECESSOR.ts'], names: ['foreignName'], mappings: 'AAAAA;AACA;AACA;AACA;AACA;AACA;AACA;AACA' })).toString('base64')
+      const withChain = []
+      js.forEach((j, i) => {
+        if (i % 4 !== 1) { withChain.push(j); return }
+        const cfgChain = Object.assign({}, j.config, { chainSourceMap: true })
+        const keep = i % 8 === 1 // the predecessor is modified / is not modified (its comments are then never consumed by the printer)
+        withChain.push({ code: (keep ? 'function pre(a, b) { return a + b }\n' : 'var pre = 1\n') + '//# sourceMappingURL=data:application/json;base64,' + foreign + '\n', file: '/srv/app/pre.js', meta: { kind: 'layout-predecessor', notJudged: true }, config: cfgChain, cfgName: 'layout+chain' })
+        withChain.push(Object.assign({}, j, { config: cfgChain, cfgName: 'layout+chain' }))
+      })
+      js = withChain
+      js.forEach((j, i) => { j.cfgKey = JSON.stringify(j.config).length + ':' + (j.config.comments ? 'c' : 'n') + (j.config.chainSourceMap ? 'C' : '') + (j.config.csiMethods[0].dst || '') })
     } else js = structJobs(spec, ctx)
     const { responses, prefixes } = rewriteJobs(js)
     const rep = { evaluations: 0, distinct: [], violations: [], inconclusive: [], samples: [], counters: {}, sets: {} }
     const bump = (k, n = 1) => { rep.counters[k] = (rep.counters[k] || 0) + n }
     for (let i = 0; i < js.length; i++) {
+      if (js[i].meta.notJudged) { bump('chained_predecessors'); continue }
       const { out, violations } = check(js[i], responses[i], prefixes[i])
       bump('status:' + out.k)
       if (['abort', 'timeout', 'harness'].includes(out.k)) { rep.inconclusive.push({ reason: 'harness-' + out.k, detail: js[i].meta.sigBase }); continue }
